@@ -1134,3 +1134,67 @@ func bundleAttenuateFailed(r *rng.R) string {
 	}
 	return ""
 }
+
+// cacheForgeryOracle (C01 through the caching verifier): after a genuine token was accepted through a VerificationCache,
+// tokens that keep its nonce but not its caveat sequence / signature are still rejected, and an honest attenuation of it
+// gets its own caveats back.
+func cacheForgeryOracle(r *rng.R) string {
+	key := macaroon.NewSigningKey()
+	m, _ := macaroon.New([]byte("k"), bLocs[0], key)
+	m.Add(&flyio.Organization{ID: 1, Mask: resset.ActionRead})
+	hdr, _ := m.String()
+	cache := bundle.NewVerificationCache(bundle.WithKey([]byte("k"), key, nil), time.Hour, 16)
+	b, _ := bundle.ParseBundle(bLocs[0], hdr)
+	if _, err := b.Verify(context.Background(), cache); err != nil {
+		return "setup: genuine token rejected: " + err.Error()
+	}
+	att, _ := m.Clone()
+	att.Add(&macaroon.ValidityWindow{NotBefore: 1, NotAfter: 2})
+	ahdr, _ := att.String()
+	ab, _ := bundle.ParseBundle(bLocs[0], ahdr)
+	sets, err := ab.Verify(context.Background(), cache)
+	if err != nil || len(sets) != 1 || len(sets[0].Caveats) != 2 {
+		return fmt.Sprintf("an honest attenuation verified through the same cache yields %v (err %v), not its own two caveats", sets, err)
+	}
+	forged := *m
+	forged.UnsafeCaveats = *macaroon.NewCaveatSet()
+	forged.Tail = make([]byte, 32)
+	if r.Bool() {
+		forged.Tail = append([]byte{}, m.Tail...)
+	}
+	fhdr, _ := (&forged).String()
+	fb, _ := bundle.ParseBundle(bLocs[0], fhdr)
+	if _, err := fb.Verify(context.Background(), cache); err == nil {
+		return "a token with the genuine nonce, no caveats and a made-up tail is accepted through the verification cache"
+	}
+	return ""
+}
+
+// sliceReuseOracle (C02): Add must not disturb the slice its caller passed (variadic arguments alias it): the same slice is
+// then added to a second token, which has to carry every caveat of it.
+func sliceReuseOracle() string {
+	key := macaroon.NewSigningKey()
+	a := &flyio.Organization{ID: 1, Mask: resset.ActionRead}
+	rd := resset.ActionRead
+	w := &macaroon.ValidityWindow{NotBefore: 0, NotAfter: 1 << 41}
+	cavs := []macaroon.Caveat{a, &rd, w}
+	t1, _ := macaroon.New([]byte("k"), bLocs[0], key)
+	t1.Add(a) // t1 already carries the first caveat: the next Add drops it as a duplicate
+	if err := t1.Add(cavs...); err != nil {
+		return "setup: " + err.Error()
+	}
+	if cavs[0] != macaroon.Caveat(a) || cavs[1] != macaroon.Caveat(&rd) || cavs[2] != macaroon.Caveat(w) {
+		return "Add rearranged the caller's caveat slice"
+	}
+	t2, _ := macaroon.New([]byte("k"), bLocs[0], key)
+	if err := t2.Add(cavs...); err != nil {
+		return "setup: " + err.Error()
+	}
+	enc, _ := t2.Encode()
+	dm, _ := macaroon.Decode(enc)
+	set, err := dm.Verify(key, nil, nil)
+	if err != nil || len(set.Caveats) != 3 {
+		return fmt.Sprintf("a token attenuated with a 3-caveat slice (used before on another token) carries %d caveats (err %v)", len(set.Caveats), err)
+	}
+	return ""
+}
